@@ -49,7 +49,10 @@ Proof. vm_compute. split; [reflexivity|]. split; [reflexivity|]. eexists. reflex
 (* a history used as the non-vacuity example of Props/C15.v *)
 Definition example_ops : list op :=
   [Alloc 5 (KOpt (mk_key 8 3)) (mk_label 4 1 (-1)); Alloc 7 KNone (mk_label 380 2 (-1)); SetVal 0 77;
-   Free 0; SetClock 9; Alloc 1 (KFunc (mk_key 112 4)) (mk_label 0 0 (-1));
+   Free 0; SetClock 9; SetVal 0 99;                         (* late write of the former owner during the cool-down *)
+   Alloc 1 (KFunc (mk_key 112 4)) (mk_label 0 0 (-1));
    Alloc 1 KNone (mk_label 2 2 (-1));                       (* full: id 0 still cooling *)
    SetClock 10; Alloc 2 KNone (mk_label 381 2 (-1)); Alloc 2 (KOpt (mk_key 113 1)) (mk_label 2 2 (-1));
-   Alloc 2 KNone (mk_label 3 2 1); Alloc 9 KNone (mk_label 2 2 (-1)); Dump].
+   Alloc 2 KNone (mk_label 3 2 1);
+   Alloc 2 KNone (mk_label_u 382 7 2);                      (* 191 two-byte characters = 382 bytes *)
+   Alloc 9 KNone (mk_label_u 380 7 3); Dump].               (* 380 bytes of UTF-8; reuses id 0, which reads 0 *)
